@@ -23,6 +23,8 @@ V = {}
 def add(proto, kind, nm, ns, mode, tier, **kw):
     tag = "".join(f"+{k}" for k, val in sorted(kw.items()) if val is True)
     n = f"{proto}.{kind}({nm}x{ns},{mode}){tag}"
+    if kw.get("rlen"):
+        n += f",rlen={kw['rlen']}"
     if n in V:
         n += ",w_together" if kw.get("w_late") is False else ",2"
     V[n] = (tier, dict(proto=proto, kind=kind, nm=nm, ns=ns, mode=mode, **kw))
@@ -57,6 +59,11 @@ add("full", "shared", 2, 2, "read", "thorough", pipelined=True)
 add("full", "arbiter", 2, 1, "write", "thorough", pipelined=True, w_late=False)
 add("lite", "decoder", 1, 2, "read", "quick", pipelined=True, cross_slave=True)
 add("lite", "decoder", 1, 2, "write", "thorough", pipelined=True, cross_slave=True, w_late=False)
+# AXI (full) read bursts of two beats: r.last only on the final beat (the grant/selection locks count r.last)
+add("full", "arbiter", 2, 1, "read", "quick", rlen=1)
+add("full", "shared", 2, 2, "read", "quick", rlen=1)
+add("full", "crossbar", 2, 2, "read", "thorough", rlen=1)
+add("full", "shared", 2, 2, "read", "thorough", rlen=1, pipelined=True)
 # capabilities tied to known findings
 add("lite", "decoder", 1, 2, "write", "quick", idle0=True)
 add("lite", "shared", 2, 2, "write", "quick", idle0=True)
